@@ -1,2 +1,136 @@
+import PelProofs.FramesPel
+import PelProofs.PelPropsAux
+import PelGen.Live
+import PelProps.Golden
+/-
+  C01 — Every PEL section is decoded once, in order, from exactly its own bytes.
+-/
 namespace Pel.C01
+
+/-! Pins: section ids and the published section names -/
+theorem pin_ids :
+    (∀ v ∈ Live.sid_privateHeader, v = sidPH) ∧ (∀ v ∈ Live.sid_userHeader, v = sidUH) ∧
+    (∀ v ∈ Live.sid_primarySRC, v = sidPS) ∧ (∀ v ∈ Live.sid_secondarySRC, v = sidSS) ∧
+    (∀ v ∈ Live.sid_extendedUserHeader, v = sidEH) ∧ (∀ v ∈ Live.sid_failingMTMS, v = sidMT) ∧
+    (∀ v ∈ Live.sid_impactedPart, v = sidLP) ∧ (∀ v ∈ Live.sid_userData, v = sidUD) ∧
+    (∀ v ∈ Live.sid_extUserData, v = sidED) := by decide
+/-- every published two-character type still maps to the same display name in the live table -/
+theorem pin_section_names : ∀ p ∈ Golden.sectionNames, ∀ live ∈ Live.sectionNames, lookupT live p.1 = some p.2 := by decide
+
+/-- ★ each entry is decoded from exactly the bytes its section header delimits: whatever follows the section
+    (`rest` – a section of any type, or anything else) is left untouched -/
+theorem frame_section (env : Env) (creator : Text) (sec : ASection) (hs : sec.WF) (j : J)
+    (hr : renderSection env creator sec = .ok j) (rest : Bytes) :
+    decodeOne env creator (sec.enc ++ rest) = .ok ((sectionName env.T sec.body.id, j), rest) :=
+  (frames_section env creator sec hs j hr).exact rest
+
+/-- the display names of a PEL's optional sections, in log order -/
+def names (env : Env) (p : APel) : List Text := p.sections.map (fun sec => sectionName env.T sec.body.id)
+
+/-- ★ a well-formed, selected PEL decodes to exactly the prescribed document, whatever trails the PEL -/
+theorem decode_encode (env : Env) (cfg : SelCfg) (p : APel) (hp : p.WF)
+    (hsel : considerPEL p.uh.sev p.uh.af cfg = true) (d : J) (hr : render env p = .ok d)
+    (hnames : (sectionName env.T sidPH :: sectionName env.T sidUH :: numberNames (names env p) (names env p)).Nodup)
+    (trailing : Bytes) :
+    parsePEL env cfg (p.enc ++ trailing) = .doc (fmtHex 2 p.ph.eid) d := by
+  have h := (frames_pel env cfg p hp hsel d hr hnames).exact trailing
+  simp only [parsePEL, h]
+
+/-- ★ exactly one top-level entry per section, in log order, under the numbered display names -/
+theorem entries (env : Env) (p : APel) (d : J) (hr : render env p = .ok d) :
+    ∃ l, d = .obj l ∧ l.length = p.sections.length + 2 ∧
+      l.map (·.1) = sectionName env.T sidPH :: sectionName env.T sidUH :: numberNames (names env p) (names env p) := by
+  cases hjs : exceptAll (p.sections.map (renderSection env [p.ph.creator])) with
+  | error e => simp [render, hjs] at hr
+  | ok js =>
+    simp only [render, hjs, Except.ok.injEq] at hr
+    subst hr
+    have hjl : js.length = p.sections.length := by
+      simpa using exceptAll_length _ _ hjs
+    have hnl : (numberNames (names env p) (names env p)).length = js.length := by
+      rw [numberNames_length, hjl]; simp [names]
+    refine ⟨_, rfl, ?_, ?_⟩
+    · simp only [List.length_append, List.length_zip, List.length_cons, List.length_nil]
+      change _ + min (numberNames (names env p) (names env p)).length _ = _
+      rw [hnl]; omega
+    · have := List.map_fst_zip (l₁ := numberNames (names env p) (names env p)) (l₂ := js) (by omega)
+      simp only [List.map_cons, List.cons_append, List.nil_append]
+      rw [← this]; rfl
+
+/-- ★ the numbering rule: a name that occurs once stays bare; a name that occurs more than once gets " k" where k
+    counts its earlier occurrences (0,1,2… in order of appearance) -/
+theorem numbering_rule (all : List Text) :
+    (numberNames all all).length = all.length ∧
+    ∀ i (h : i < all.length), (numberNames all all)[i]? =
+      some (if (all.filter (· == all[i])).length = 1 then all[i]
+            else all[i] ++ [32] ++ natDec ((all.take i).filter (· == all[i])).length) := by
+  refine ⟨numberNames_length all all, ?_⟩
+  intro i h
+  have := numberNames_getElem? all [] i h
+  simpa using this
+
+/-- entries are named after the two-character type; unrecognised types are called Unknown -/
+theorem name_of_id (T : Tables) (id : Nat) :
+    sectionName T id = (lookupT T.sectionNames [(id / 256) % 256, id % 256]).getD (s "Unknown") := rfl
+
+/-- a PEL that the options do not select yields no document (and is not an error) -/
+theorem not_selected (env : Env) (cfg : SelCfg) (p : APel) (hp : p.WF)
+    (hsel : considerPEL p.uh.sev p.uh.af cfg = false) (trailing : Bytes) :
+    parsePEL env cfg (p.enc ++ trailing) = .filtered := by
+  obtain ⟨hph, huh, hlen, hsecs⟩ := hp
+  have f1 := frames_parseHeader sidPH 40 p.ph.hdr hph.1 (by decide) (by decide)
+  have f2 := frames_PH env.T p.ph hph (p.sections.length + 2) (by omega) (8 + 40)
+  have f3 := frames_parseHeader sidUH 16 p.uh.hdr huh.1 (by decide) (by decide)
+  have f4 := frames_UH env.T p.uh huh [p.ph.creator] (8 + 16)
+  have hf : Frames (parsePELRd env cfg) (encHdr sidPH 40 p.ph.hdr ++ (p.ph.encBody (p.sections.length + 2) ++
+      (encHdr sidUH 16 p.uh.hdr ++ (p.uh.encBody ++ [])))) .filtered := by
+    unfold parsePELRd
+    refine Frames.bind f1 ?_
+    simp only [mkSecHdr, ne_eq, not_true_eq_false, if_false]
+    refine Frames.bind f2 ?_
+    simp only
+    refine Frames.bind f3 ?_
+    simp only [mkSecHdr, not_true_eq_false, if_false]
+    refine Frames.bind f4 ?_
+    simp only [hsel, Bool.not_false, if_true]
+    exact Frames.pure _
+  have e : p.enc ++ trailing = (encHdr sidPH 40 p.ph.hdr ++ (p.ph.encBody (p.sections.length + 2) ++
+      (encHdr sidUH 16 p.uh.hdr ++ (p.uh.encBody ++ [])))) ++ (p.sections.flatMap (·.enc) ++ trailing) := by
+    simp [APel.enc]
+  rw [e]
+  simp only [parsePEL, hf.exact _]
+
+/-! Non-vacuity: a well-formed PEL with sections PS, UD, UD, ZZ (unknown), MT whose names are numbered. -/
+def demoHdr : AHdr := { ver := 1, sub := 0, comp := 0x2000 }
+def demoSrc : ASrc :=
+  { version := 2, flagsHi := 0, resv1 := 0, wordCount := 9, resv2 := 0, size := 72,
+    words := [0x55, 0, 0, 0, 0, 0, 0, 0], ascii := s "BD8D1234                        ", callouts := none }
+def demoPH : APH :=
+  { hdr := demoHdr, create := [0x20,0x24,3,8,0x18,0x40,0x27,0], commit := [0x20,0x24,3,8,0x18,0x40,0x27,0], creator := 79,
+    resv0 := 0, resv1 := 0, obmc := 1, cver := 0, plid := 0x50000001, eid := 0x50000001 }
+def demoUH : AUH :=
+  { hdr := demoHdr, subsys := 0x8D, scope := 3, sev := 0x40, etype := 0, resv := 0, pd := 0, pv := 0, af := 0xA000, states := 0 }
+def demoPel : APel :=
+  { ph := demoPH, uh := demoUH,
+    sections := [
+      { hdr := demoHdr, body := .src true demoSrc },
+      { hdr := { ver := 1, sub := 3, comp := 0x2000 }, body := .ud (s "hello") },
+      { hdr := { ver := 1, sub := 3, comp := 0x2000 }, body := .ud (s "world") },
+      { hdr := demoHdr, body := .other 0x5A5A [1, 2, 3] },
+      { hdr := demoHdr, body := .mt { mtm := s "9105-22A", sn := s "SN1234567890" } }] }
+
+example : numberNames [s "Primary SRC", s "User Data", s "User Data", s "Unknown", s "Failing MTMS"]
+                      [s "Primary SRC", s "User Data", s "User Data", s "Unknown", s "Failing MTMS"] =
+    [s "Primary SRC", s "User Data 0", s "User Data 1", s "Unknown", s "Failing MTMS"] := by decide
+
+theorem demo_wf : demoPel.WF := by
+  have hs1 : s "BD8D1234                        " = [66, 68, 56, 68, 49, 50, 51, 52, 32,32,32,32,32,32,32,32,32,32,32,32,32,32,32,32,32,32,32,32,32,32,32,32] := by decide
+  have hs2 : s "hello" = [104, 101, 108, 108, 111] := by decide
+  have hs3 : s "world" = [119, 111, 114, 108, 100] := by decide
+  have hs4 : s "9105-22A" = [57, 49, 48, 53, 45, 50, 50, 65] := by decide
+  have hs5 : s "SN1234567890" = [83, 78, 49, 50, 51, 52, 53, 54, 55, 56, 57, 48] := by decide
+  simp only [APel.WF, APH.WF, AUH.WF, AHdr.WF, demoPel, demoPH, demoUH, demoHdr, demoSrc, List.forall_mem_cons,
+    ASection.WF, ABody.WF, ASrc.WF, AMT.WF, isAscii, ABody.enc, ASrc.encBody, AMT.encBody, hs1, hs2, hs3, hs4, hs5]
+  simp [toBE, isSpecialId, sidPH, sidUH, sidPS, sidSS, sidEH, sidMT, sidLP, sidUD, sidED]
+
 end Pel.C01
